@@ -481,3 +481,6 @@ Proof.
   rewrite lit_comb_one. rewrite Rplus_0_r, exp_0. auto.
 Qed.
 End Pure.
+
+(* the same chemical at another mole fraction *)
+Definition set_cx (c : chem) (x : R) : chem := mkChem x (cq c) (cr c) (cg c) (cQ c) (cl c).
